@@ -111,7 +111,11 @@ where
     }
 
     fn start_send(mut self: Pin<&mut Self>, frame: Frame) -> Result<(), Self::Error> {
-        let payload = frame.unwrap_message();
+        // Only messages can be routed; anything else a replier sends is refused
+        let payload = match frame {
+            Frame::Message(payload) => payload,
+            _ => return Err(anyhow!("Expected a message frame")),
+        };
         if payload.headers.is_none() {
             return Err(anyhow!("Expected headers for message"));
         }
